@@ -164,3 +164,37 @@ R.loop("Node.add_application", 1,
                    ("realm-list", "implies(wanted(peer, r, realms), r in seq)"),
                    ("app-listed", "app in items(self.applications)")],
        modifies=["dict:self._peer_routes", "*dict:Dict[Any:routekey,List[Peer]]", "*list:Peer"])
+
+# ---- C10/C08: Node.add_peer (default peers are routed under THEIR realm) ---------------------------------------------
+R.model("DiameterUri", builtin=True, fields={"fqdn": "str", "port": "int", "params": "Any"})
+R.contract("parse_diameter_uri", trusted=True, params={"uri": "str"}, returns="DiameterUri", allocates=True,
+           raises=[Raise("ValueError", "True", "may")],
+           note="ASSUMED: parses aaa://fqdn:port;transport=...; only the host name and port are used below")
+R.contract("Peer.__new__", trusted=True,
+           params={"node_name": "str", "realm_name": "str", "transport": "int", "port": "int", "ip_addresses": "List[str]",
+                   "persistent": "bool"},
+           returns="Peer", allocates=True,
+           ensures=["result.node_name == node_name and result.realm_name == realm_name and result.transport == transport and "
+                    "result.port == port and result.persistent == persistent and is_none(result.connection)"],
+           note="ASSUMED: the dataclass constructor stores its arguments")
+R.region("Node.add_peer", "Assign", 1, assigns={"transport": "int"}, note="transport = uri.params.get('transport', 'tcp').lower()")
+R.region("Node.add_peer", "Assign", 2, assigns={"transport": "int"}, note="transport = SCTP/TCP constant by name")
+R.kind_hints[("Node.add_peer", "{}")] = "Dict[Any:routekey,List[Peer]]"
+R.kind_hints[("Node.add_peer", "[]")] = "List[Peer]"
+R.contract("Node.add_peer", params={"self": "Node", "peer_uri": "str", "realm_name": "Opt[str]", "ip_addresses": "Opt[List[str]]",
+                                    "is_persistent": "bool", "is_default": "bool"},
+           returns="Peer", ghost={"r2": "str"}, ghost_out={"u": ("uri", "DiameterUri")},
+           ensures=[("registered-under-its-host-name", "u.fqdn in self.peers and self.peers[u.fqdn] == result and "
+                                                       "implies(not unchanged(self.peers), result.node_name == u.fqdn)"),
+                    ("a-new-default-peer-is-routed-under-its-own-realm",
+                     "implies(not unchanged(self.peers) and is_default, result.realm_name in self._peer_routes and "
+                     "'_default' in self._peer_routes[result.realm_name] and "
+                     "result in items(self._peer_routes[result.realm_name]['_default']))"),
+                    ("no-other-realm-gets-a-route",
+                     "implies(not unchanged(self.peers) and r2 != result.realm_name, "
+                     "(r2 in self._peer_routes) == old(r2 in self._peer_routes))"),
+                    ("realm-defaults-to-the-nodes", "implies(not unchanged(self.peers), result.realm_name == "
+                                                    "ite(is_none(realm_name) or some(realm_name) == '', self.realm_name, some(realm_name)))")],
+           raises=[Raise("ValueError", "True", "may"), Raise("RuntimeError", "True", "may")],
+           modifies=["dict:self.peers", "dict:self._peer_routes", "*dict:Dict[Any:routekey,List[Peer]]", "*list:Peer"],
+           props=["C10", "C08"])
